@@ -349,6 +349,12 @@ class Ctx:
         return not self.proof_broken
 
     def build_driver(self):
+        # the driver links every area's model, so every area's generated constants must exist
+        from . import constants
+        for a in constants.area_names():
+            ok, msg = constants.generate(a)
+            if not ok:
+                self.infra_errors.append("constants(%s): %s" % (a, msg[-800:]))
         r = lake(["build", "qdriver"])
         if r.returncode != 0:
             self.infra_errors.append("qdriver build failed: " + r.stdout[-3000:])
